@@ -189,7 +189,25 @@ def check_basis(case):
     return OK(bool(core), *labels)
 
 
-CHECKS = {"basis": check_basis}
+def check_form(case):
+    """One strategy's needed patterns plus a single further element: the strategy (and every
+    other core strategy) applies exactly when the oracle says so.  A cheap check, swept over
+    every further element up to a length the full check cannot afford."""
+    need = sorted(SPEC[case["name"]][0])
+    perms = [tuple(p) for p in need] + [tuple(case["x"])]
+    core, _ = oracle_core(perms)
+    img = [Perm(p) for p in perms]
+    for cls in core_strategies:
+        got = cls(img).applies()
+        if got != (cls.__name__ in core):
+            return BAD("form_" + cls.__name__, {"basis": [list(p) for p in perms], "got": got, "want": cls.__name__ in core})
+    got = [n for n in _names(find_strategies(img, long_runnning=False)) if n != "InsertionEncodingStrategy"]
+    if got != sorted(core):
+        return BAD("form_find_strategies", {"basis": [list(p) for p in perms], "got": got, "want": sorted(core)})
+    return OK(len(case["x"]) >= 5, case["name"], "applies" if case["name"] in core else "does_not_apply", "len%d" % len(case["x"]))
+
+
+CHECKS = {"basis": check_basis, "form": check_form}
 
 
 # ------------------------------------------------------------------ generators
@@ -197,7 +215,12 @@ CHECKS = {"basis": check_basis}
 def extension(draw):
     """a '1 (+) alpha' candidate"""
     alpha = list(draw(gen.perms(1, 4)))
-    kind = draw(st.sampled_from(["any", "skewind", "sumind", "fixed_end", "mesh_ok", "no_zero"]))
+    kind = draw(st.sampled_from(["any", "skewind", "sumind", "fixed_end", "mesh_ok", "no_zero", "blocks", "blocks"]))
+    if kind == "blocks":
+        # alpha a direct or skew sum of two or three indecomposable-ish blocks of 2-3 points
+        # (elements of 6-8 points: the decomposability tests must look beyond the first and last entry)
+        parts = [tuple(draw(gen.perms(2, 3))) for _ in range(draw(st.integers(2, 3)))]
+        alpha = list(ref.direct_sum(*parts) if draw(st.booleans()) else ref.skew_sum(*parts))
     a = tuple(alpha)
     if kind == "skewind" and ref.is_skew_decomposable(a):
         alpha = [v for v in ref.sym_perm("c", a)] if not ref.is_skew_decomposable(ref.sym_perm("c", a)) else alpha
@@ -211,8 +234,34 @@ def extension(draw):
     return p
 
 
+# sum- (skew-) indecomposable blocks of 2-4 points: their sums are decomposable in ways that the
+# first and the last entry alone do not reveal
+_IND_SUM = [p for p in ref.perms_upto(4, 2) if not ref.is_sum_decomposable(p)]
+_IND_SKEW = [p for p in ref.perms_upto(4, 2) if not ref.is_skew_decomposable(p)]
+
+
 @st.composite
 def basis_cases(draw, slow_max):
+    if draw(st.integers(0, 3)) == 0:
+        # exactly the needed patterns of one strategy plus one or two long extensions built from
+        # blocks: the strategy is reported iff the prescribed form holds for each of them
+        name = draw(st.sampled_from(sorted(SPEC)))
+        perms = [list(p) for p in sorted(SPEC[name][0])]
+        for _ in range(draw(st.integers(1, 2))):
+            # the kind of sum the strategy's form forbids (so the true answer is usually 'not reported'),
+            # or the other kind (usually 'reported')
+            forbids_direct = name in ("RdCdCoreStrategy", "RdCdCuCoreStrategy", "RdCuCoreStrategy")
+            direct = forbids_direct if draw(st.integers(0, 3)) else not forbids_direct
+            pool = [b for b in (_IND_SUM if direct else _IND_SKEW) if len(b) >= 3]
+            parts = [draw(st.sampled_from(pool)) for _ in range(draw(st.sampled_from([1, 2, 2, 2, 3])))]
+            q = ref.direct_sum(*parts) if direct else ref.skew_sum(*parts)
+            x = [0] + [v + 1 for v in q]
+            if draw(st.integers(0, 3)) == 0:
+                x = x + [len(x)]
+            perms.append(x)
+        g = draw(st.sampled_from(ref.SYMS))
+        perms = [list(ref.sym_perm(g, tuple(p))) for p in perms]
+        return {"perms": perms, "slow": False, "slow_images": False}
     k = draw(st.integers(0, 4))
     chosen = draw(st.lists(st.sampled_from(NEEDED), min_size=k, max_size=k, unique=True))
     perms = [list(p) for p in chosen]
@@ -247,7 +296,19 @@ def shard_exhaustive(acc, shard, nshards, _unused):
                 i += 1
 
 
+def shard_form(acc, shard, nshards, maxlen):
+    """every strategy x every further element of length 2..maxlen"""
+    i = 0
+    for name in sorted(SPEC):
+        for n in range(2, maxlen + 1):
+            for x in itertools.permutations(range(n)):
+                if i % nshards == shard:
+                    acc.record("form", check_form, {"name": name, "x": list(x)})
+                i += 1
+
+
 def run(acc, tier):
+    engine.pmap(acc, shard_form, extra=(7 if tier == "quick" else 8,))
     if tier == "quick":
         engine.pmap(acc, shard_exhaustive, extra=(0,))
         engine.pmap(acc, shard_generated, extra=(40, 4))
